@@ -480,11 +480,15 @@ def chain_casefile(cases, outs, conc, seed):
         agree = all(canon(x) == canon(exp) for x in preds)
         cs.append({'id': c['id'], 'pid': p['id'], 'q': p['q'], 'metric': is_metric(p), 'es': c['es'], 'cut': c['cut'], 'eof': c['eof'],
                    'alts': c['alts'], 'lim': c['lim'], 'fwd': c['fwd'], 'exp': exp, 'preds': preds,
-                   'agree': agree, 'causes': [] if agree else sorted(o['causes'])})
+                   'agree': agree, 'causes': [] if agree else sorted(o['causes']),
+                   # what the chain would return had it regressed to a repaired deviation (InProc!IP_Retired)
+                   'regress': {r['q']: [obs_json(x) for x in r['preds']] for r in o.get('regress') or []
+                               if any(canon(obs_json(x)) != canon(y) for x, y in zip(r['preds'], preds))}})
     return {'conc': conc, 'dur_s': DUR, 'windows': WINDOWS, 'seed': seed, 'cases': cs}
 
 
-# what each as-coded switch of the specification stands for (for the violation messages)
+# what each switch of the specification stands for (for the violation messages); all but marker_eval are RETIRED switches
+# (InProc!IP_Retired): the code was repaired, the text describes the regression a result matching the switch means
 QUIRK_TEXT = {
     'limit0': 'LimitPlanner (planner_limit.go:17) forwards nothing when ctx.Limit is 0; on the SQL side (planner_main_limit.go:18) 0 means no limit, '
               'and query_range without a limit parameter passes 0',
@@ -517,6 +521,9 @@ def chain_violations(cf, res):
         if c['causes'] and m.get('match_pred'):
             for q in c['causes']:
                 groups.setdefault('C09/inproc/' + q, []).append((len(c['causes']), len(c['es']), m, c, kinds))
+        elif m.get('match_retired'):
+            # the chain did exactly what a repaired deviation used to do: reported under that deviation's signature
+            groups.setdefault('C09/inproc/' + m['match_retired'], []).append((1, len(c['es']), m, c, kinds))
         else:
             groups.setdefault('C09/inproc/unpredicted/' + c['pid'] + '/' + kinds, []).append((0, len(c['es']), m, c, kinds))
     out = []
@@ -525,6 +532,8 @@ def chain_violations(cf, res):
         _, n, m, c, kinds = lst[0]
         q = sig.split('/')[-1]
         why = QUIRK_TEXT.get(q, 'the transcription of the code in InProc.tla does not predict this result')
+        if m.get('match_retired'):
+            why = 'REGRESSION to a repaired deviation: ' + why
         ups = [{'labels': e['lb'], 'ts_s': e['ts'], 'line': cf['conc'].get(e['ln'], e['ln'])} for e in c['es']]
         allkinds = sorted(set(x[4] for x in lst))
         replay = vlib.save_replay('C09', re.sub(r'[^A-Za-z0-9_+-]+', '_', sig)[:150],
